@@ -282,23 +282,29 @@ func newSvcDiscoveryClient(scope string, streamMaker svcDiscoveryStreamMaker) *s
 
 func (c *svcDiscoveryClient) Subscribe(svcName string) {
 	c.Lock()
-	defer c.Unlock()
 	_, ok := c.subscribed[svcName]
 	if ok {
+		c.Unlock()
 		return
 	}
 	c.subscribed[svcName] = struct{}{}
+	c.Unlock()
+	// NOTE: enqueue without holding the lock. The queue may be full while
+	// the stream is down, and then it's only drained by resubscribe which
+	// needs the lock.
 	c.subCh <- svcName
 }
 
 func (c *svcDiscoveryClient) Unsubscribe(svcName string) {
 	c.Lock()
-	defer c.Unlock()
 	_, ok := c.subscribed[svcName]
 	if !ok {
+		c.Unlock()
 		return
 	}
 	delete(c.subscribed, svcName)
+	c.Unlock()
+	// NOTE: enqueue without holding the lock, see Subscribe.
 	c.unsubCh <- svcName
 }
 
